@@ -152,6 +152,13 @@ def family(tier, seed):
     for name, va, vb in poly:
         body = If(((Cmp(Id("x"), "==", Lit(1)), rets(va, 0)), (Cmp(Id("x"), "==", Lit(2)), rets(vb, 1))), rets(va, 2))
         items.append(("polymorphic", Program(name.replace("-", "_"), body, "s", ("uid",)), {}))
+    # literals with runs of blanks, tabs and other characters that text-level post-processing of the module would touch
+    for name, salt, label, operand in (("blank_runs", "exp    2024", "A    (control)", "US    "),
+                                       ("tabs", "a\tb", "x\t\ty", "\t"), ("eight", " " * 8, "l" + " " * 9 + "r", "    "),
+                                       ("hash_semicolon", "a # b", "c; d", "#!")):
+        body = If(((Cmp(Id("country"), "==", Lit(operand)), Ret((Group(Lit(label), 1, "1"), Group(Lit("other"), 1, "1")), 0)),),
+                  Ret((Group(Lit("rest"), 1, "1"),), 1))
+        items.append(("literal-text", Program(name, body, salt, ("uid",)), {}))
     fam = sf.splitter_family(tier, seed)
     rng.shuffle(fam)
     for bname, p in fam[: (40 if tier == "quick" else 400)]:
